@@ -288,7 +288,7 @@ impl Driver for DVal {
         Some(hash128(s))
     }
     fn describe(&self, s: &ValState) -> serde_json::Value {
-        json!({"paths": PATHS, "choices": format!("{:?}", s.choices), "registry_user_types": s.reg_size})
+        json!({"paths": &PATHS[..s.choices.len()], "choices": format!("{:?}", s.choices), "registry_user_types": s.reg_size})
     }
 }
 
